@@ -194,6 +194,16 @@ template<> struct elem_traits<Triv> {
 	static constexpr i64 value_init = 0;
 };
 
+template<> struct elem_traits<int> {
+	using E    = int;
+	using conv = int;
+	static constexpr bool tracked = false, throwing_move = false, trivial = true;
+	static auto make(i64 v) -> E { return static_cast<int>(v); }
+	static auto make_conv(i64 v) -> conv { return static_cast<int>(v); }
+	static auto read(E const& e, bool& /*ok*/) -> i64 { return e == static_cast<int>(0xA5A5A5A5u) ? FRESH_I64 : static_cast<i64>(e); }
+	static void write(E& e, i64 v) { e = static_cast<int>(v); }
+	static constexpr i64 value_init = 0;
+};
 template<> struct elem_traits<Semi> {
 	using E    = Semi;
 	using conv = Semi;
